@@ -2,18 +2,30 @@
 From ReqV Require Import Lib.Bytes Model.Retry Model.RetryUpload.
 From Coq Require Import Lia.
 
+(* sources every attempt can read completely *)
 Definition replayable (f : mfile) : Prop :=
-  mf_kind f = FBytes \/ mf_kind f = FPath \/ mf_kind f = FSeekNoClose \/ mf_kind f = FSeekReader.
+  mf_kind f = FBytes \/ mf_kind f = FPath \/ mf_kind f = FSeekNoClose \/ mf_kind f = FSeekReader \/
+  mf_kind f = FCustomSeek.
 
-Definition one_shot (f : mfile) : Prop := mf_kind f = FPlainReader \/ mf_kind f = FOsFile.
+(* everything but a caller-supplied GetFileContent that shares one plain reader *)
+Definition managed (f : mfile) : Prop := mf_kind f <> FCustomPlain.
 
 Definition unused (f : mfile) : Prop := mf_used f = false.
 
-(* a source yields its complete content or fails - never a part of it *)
-Lemma file_read_full_or_none att f : file_read att f = None \/ file_read att f = Some (mf_content f).
+Lemma replayable_managed f : replayable f -> managed f.
+Proof. unfold replayable, managed. intros [H|[H|[H|[H|H]]]]; rewrite H; discriminate. Qed.
+
+(* a managed source yields its complete content or fails - never a part of it *)
+Lemma file_read_full_or_none att f :
+  managed f -> unused f \/ (1 <= att)%Z ->
+  file_read att f = None \/ file_read att f = Some (mf_content f).
 Proof.
-  unfold file_read. destruct (mf_kind f); try (right; reflexivity);
-  match goal with |- context [if ?b then _ else _] => destruct b end; auto.
+  unfold managed, unused, file_read. intros Hm Hc.
+  destruct (mf_kind f); try (right; reflexivity); try (contradiction Hm; reflexivity).
+  - destruct (mf_used f); auto.
+  - destruct (mf_used f); auto.
+  - destruct Hc as [Hu|Ha]; [rewrite Hu; right; reflexivity|].
+    assert (E : (att <=? 0)%Z = false) by lia. rewrite E, andb_false_r. right; reflexivity.
 Qed.
 
 Lemma file_read_unused att f : unused f -> file_read att f = Some (mf_content f).
@@ -23,7 +35,7 @@ Lemma file_read_replayable att f : replayable f -> (1 <= att)%Z -> file_read att
 Proof.
   unfold replayable, file_read. intros H Ha.
   assert (E : (att <=? 0)%Z = false) by lia.
-  destruct H as [H|[H|[H|H]]]; rewrite H; rewrite ?E, ?andb_false_r; reflexivity.
+  destruct H as [H|[H|[H|[H|H]]]]; rewrite H; rewrite ?E, ?andb_false_r; reflexivity.
 Qed.
 
 Section UploadProofs.
@@ -31,18 +43,19 @@ Variable detect : bytes -> bytes.
 
 Notation full_files fs := (map (fun f => mk_part detect f (mf_content f)) fs).
 
-Lemma file_parts_full att : forall fs ps, file_parts file_read detect att fs = Some ps -> ps = full_files fs.
+Lemma file_parts_full att : forall fs,
+  (forall f, In f fs -> file_read att f = None \/ file_read att f = Some (mf_content f)) ->
+  snd (file_parts file_read detect att fs) = true ->
+  fst (file_parts file_read detect att fs) = full_files fs.
 Proof.
-  induction fs as [|f r IH]; intros ps H; cbn [file_parts map] in *.
-  - injection H as <-. reflexivity.
-  - destruct (file_read_full_or_none att f) as [E|E]; rewrite E in H; [discriminate|].
-    destruct (file_parts file_read detect att r) as [ps'|]; [|discriminate].
-    injection H as <-. rewrite (IH ps' eq_refl). reflexivity.
+  induction fs as [|f r IH]; intros H Hok; cbn [file_parts map fst snd] in *; [reflexivity|].
+  destruct (H f (or_introl eq_refl)) as [E|E]; rewrite E in *; cbn [fst snd] in *; [discriminate|].
+  rewrite IH; [reflexivity| |exact Hok]. intros g Hg. apply H. right. exact Hg.
 Qed.
 
 Lemma file_parts_all att fs :
   (forall f, In f fs -> file_read att f = Some (mf_content f)) ->
-  file_parts file_read detect att fs = Some (full_files fs).
+  file_parts file_read detect att fs = (full_files fs, true).
 Proof.
   induction fs as [|f r IH]; intros H; cbn [file_parts map]; [reflexivity|].
   rewrite (H f (or_introl eq_refl)), IH; [reflexivity|]. intros g Hg. apply H. right. exact Hg.
@@ -51,28 +64,53 @@ Qed.
 Lemma full_parts_mark_used form fs : full_parts detect form (map mark_used fs) = full_parts detect form fs.
 Proof. unfold full_parts. rewrite map_map. reflexivity. Qed.
 
-Lemma mp_pass_some att form fs ps :
-  fst (mp_pass file_read detect att form fs) = Some ps -> ps = full_parts detect form fs.
+Lemma managed_mark_used fs : Forall managed fs -> Forall managed (map mark_used fs).
 Proof.
-  unfold mp_pass, full_parts. cbn [fst].
-  destruct (file_parts file_read detect att fs) as [ps'|] eqn:E; [|discriminate].
-  intros H. injection H as <-. rewrite (file_parts_full att fs ps' E). reflexivity.
+  intros H. rewrite Forall_forall in *. intros f Hin. apply in_map_iff in Hin.
+  destruct Hin as (g & <- & Hg). apply (H g Hg).
 Qed.
 
-(* whatever the kinds of source, whatever was used before: a body that is sent is complete *)
-Theorem upload_never_partial form : forall n att fs,
-  Forall (fun ps => ps = full_parts detect form fs) (fst (mp_attempts file_read detect n att form fs)).
+Lemma mp_pass_complete att form fs :
+  Forall managed fs -> Forall unused fs \/ (1 <= att)%Z ->
+  snd (fst (mp_pass file_read detect att form fs)) = true ->
+  fst (fst (mp_pass file_read detect att form fs)) = full_parts detect form fs.
+Proof.
+  intros Hm Hc. unfold mp_pass, full_parts. cbn [fst snd]. intros Hok. f_equal.
+  apply file_parts_full; [|exact Hok].
+  intros f Hin. apply file_read_full_or_none.
+  - rewrite Forall_forall in Hm. apply Hm, Hin.
+  - destruct Hc as [Hu|Ha]; [left; rewrite Forall_forall in Hu; apply Hu, Hin|right; exact Ha].
+Qed.
+
+(* whatever the (managed) kinds of source, buffered or chunked: a body that was written to its
+   end carries every field and every file completely *)
+Theorem upload_never_partial form chunked : forall n att fs,
+  Forall managed fs -> (0 <= att)%Z -> Forall unused fs \/ (1 <= att)%Z ->
+  Forall (fun a => snd a = true -> fst a = full_parts detect form fs)
+         (fst (mp_attempts file_read detect chunked n att form fs)).
+Proof.
+  induction n as [|n IH]; intros att fs Hm Ha Hc; cbn [mp_attempts]; [constructor|].
+  destruct (snd (fst (mp_pass file_read detect att form fs)) || chunked) eqn:E; cbn [fst]; [|constructor].
+  constructor; [apply mp_pass_complete; assumption|].
+  unfold mp_pass at 1. cbn [snd].
+  rewrite <- (full_parts_mark_used form fs).
+  apply IH; [apply managed_mark_used, Hm|lia|right; lia].
+Qed.
+
+(* buffered variant: every body that is sent was written to its end *)
+Theorem upload_buffered_complete form : forall n att fs,
+  Forall (fun a => snd a = true) (fst (mp_attempts file_read detect false n att form fs)).
 Proof.
   induction n as [|n IH]; intros att fs; cbn [mp_attempts]; [constructor|].
-  destruct (fst (mp_pass file_read detect att form fs)) as [ps|] eqn:E; cbn [fst]; [|constructor].
-  constructor; [apply (mp_pass_some att form fs ps E)|].
-  unfold mp_pass at 1. cbn [snd].
-  rewrite <- (full_parts_mark_used form fs). apply IH.
+  rewrite orb_false_r.
+  destruct (snd (fst (mp_pass file_read detect att form fs))) eqn:E; cbn [fst]; [|constructor].
+  constructor; [exact E|apply IH].
 Qed.
 
 (* the first attempt of a fresh request carries every file completely - whatever the source *)
 Theorem upload_first_complete att form fs :
-  Forall unused fs -> fst (mp_pass file_read detect att form fs) = Some (full_parts detect form fs).
+  Forall unused fs ->
+  fst (mp_pass file_read detect att form fs) = (full_parts detect form fs, true).
 Proof.
   intros H. unfold mp_pass, full_parts. cbn [fst].
   rewrite file_parts_all; [reflexivity|].
@@ -81,7 +119,7 @@ Qed.
 
 Lemma mp_pass_retry att form fs :
   Forall replayable fs -> (1 <= att)%Z ->
-  fst (mp_pass file_read detect att form fs) = Some (full_parts detect form fs).
+  fst (mp_pass file_read detect att form fs) = (full_parts detect form fs, true).
 Proof.
   intros H Ha. unfold mp_pass, full_parts. cbn [fst].
   rewrite file_parts_all; [reflexivity|].
@@ -94,51 +132,70 @@ Proof.
   destruct Hin as (g & <- & Hg). apply (H g Hg).
 Qed.
 
-Lemma mp_attempts_retries form : forall n att fs,
+Lemma mp_attempts_retries form chunked : forall n att fs,
   Forall replayable fs -> (1 <= att)%Z ->
-  mp_attempts file_read detect n att form fs = (repeat (full_parts detect form fs) n, false).
+  mp_attempts file_read detect chunked n att form fs = (repeat (full_parts detect form fs, true) n, false).
 Proof.
   induction n as [|n IH]; intros att fs Hr Ha; cbn [mp_attempts repeat]; [reflexivity|].
-  rewrite mp_pass_retry by assumption.
-  unfold mp_pass at 1 2. cbn [snd]. rewrite IH; [|apply replayable_mark_used, Hr|lia].
+  rewrite mp_pass_retry by assumption. cbn [fst snd orb].
+  unfold mp_pass. cbn [snd]. rewrite IH; [|apply replayable_mark_used, Hr|lia].
   cbn [fst snd]. rewrite full_parts_mark_used. reflexivity.
 Qed.
 
-(* with replayable sources EVERY attempt carries the same parts - all fields, all files
-   complete - and no attempt is refused, for every number of attempts *)
-Theorem upload_attempts_identical form fs n :
+(* with replayable sources - including a caller-supplied GetFileContent that shares one
+   io.ReadSeeker - EVERY attempt is sent and carries the same parts, all fields and all files
+   complete, in both encodings, for every number of attempts *)
+Theorem upload_attempts_identical form chunked fs n :
   Forall replayable fs -> Forall unused fs ->
-  mp_attempts file_read detect n 0 form fs = (repeat (full_parts detect form fs) n, false).
+  mp_attempts file_read detect chunked n 0 form fs = (repeat (full_parts detect form fs, true) n, false).
 Proof.
   intros Hr Hu. destruct n as [|n]; [reflexivity|]. cbn [mp_attempts repeat].
-  rewrite upload_first_complete by exact Hu.
-  unfold mp_pass at 1 2. cbn [snd].
+  rewrite upload_first_complete by exact Hu. cbn [fst snd orb].
+  unfold mp_pass. cbn [snd].
   rewrite mp_attempts_retries; [|apply replayable_mark_used, Hr|lia].
   cbn [fst snd]. rewrite full_parts_mark_used. reflexivity.
 Qed.
 
-(* a source that cannot be rewound (bytes.Buffer, an os.File closed after the first attempt):
-   the first attempt is complete, the retry is refused - nothing partial is sent *)
-Theorem upload_one_shot_ends_retries param name kind content :
-  kind = FPlainReader \/ kind = FOsFile ->
-  mp_attempts file_read detect 2 0 [] [mkFile param name kind content false] =
-  ([[PFile param name (detect (pad512 content)) content]], true).
-Proof. intros [-> | ->]; reflexivity. Qed.
+(* a retryable request with an upload that can be sent only once (SetFileReader with a reader
+   that is not an io.Seeker, or with an os.File) is refused up front: nothing is sent *)
+Theorem upload_once_only_refused_up_front chunked n form fs :
+  existsb upload_once_only fs = true ->
+  mp_run file_read detect true chunked n form fs = ([], false, true).
+Proof. intros H. unfold mp_run. rewrite H. reflexivity. Qed.
+
+(* without retries (count 0 / no option) it is sent, once and completely *)
+Theorem upload_once_only_single_attempt chunked form fs :
+  Forall unused fs ->
+  mp_run file_read detect false chunked 1 form fs = ([(full_parts detect form fs, true)], false, false).
+Proof.
+  intros Hu. unfold mp_run. cbn [andb mp_attempts].
+  rewrite upload_first_complete by exact Hu. cbn [fst snd orb]. reflexivity.
+Qed.
+
+(* the code as it is for a caller-supplied GetFileContent that returns the same plain reader
+   on every call: the retry carries a zero-length file (the caller's contract; nothing req
+   could rewind) *)
+Theorem upload_custom_plain_partial chunked param name content :
+  mp_attempts file_read detect chunked 2 0 [] [mkFile param name FCustomPlain content false] =
+  ([([PFile param name (detect (pad512 content)) content], true);
+    ([PFile param name (detect (pad512 [])) []], true)], false).
+Proof. destruct chunked; reflexivity. Qed.
 
 (* SetFileReader as pinned: the drained reader is uploaded again as a zero-length file *)
 Theorem upload_reader_pinned_refuted param name kind content :
   kind = FSeekReader \/ kind = FPlainReader ->
-  mp_attempts file_read_pinned detect 2 0 [] [mkFile param name kind content false] =
-  ([[PFile param name (detect (pad512 content)) content]; [PFile param name (detect (pad512 [])) []]], false).
+  mp_attempts file_read_pinned detect false 2 0 [] [mkFile param name kind content false] =
+  ([([PFile param name (detect (pad512 content)) content], true);
+    ([PFile param name (detect (pad512 [])) []], true)], false).
 Proof. intros [-> | ->]; reflexivity. Qed.
 
 End UploadProofs.
 
 Example upload_attempts_identical_nonvacuous :
-  mp_attempts file_read (fun _ => bs "application/octet-stream") 3 0 [(bs "f", [bs "1"])]
+  mp_attempts file_read (fun _ => bs "application/octet-stream") true 3 0 [(bs "f", [bs "1"])]
     [mkFile (bs "file") (bs "a.txt") FPath (bs "hello") false;
-     mkFile (bs "doc") (bs "b.bin") FSeekReader (bs "b") false] =
-  (repeat [PField (bs "f") (bs "1");
-           PFile (bs "file") (bs "a.txt") (bs "application/octet-stream") (bs "hello");
-           PFile (bs "doc") (bs "b.bin") (bs "application/octet-stream") (bs "b")] 3, false).
+     mkFile (bs "doc") (bs "b.bin") FCustomSeek (bs "b") false] =
+  (repeat ([PField (bs "f") (bs "1");
+            PFile (bs "file") (bs "a.txt") (bs "application/octet-stream") (bs "hello");
+            PFile (bs "doc") (bs "b.bin") (bs "application/octet-stream") (bs "b")], true) 3, false).
 Proof. vm_compute. reflexivity. Qed.
